@@ -1,6 +1,7 @@
 package main
 
 import (
+	"reflect"
 	"fmt"
 	"io/ioutil"
 	"math"
@@ -161,6 +162,51 @@ func c16RecordB(kind string, g geom.Geom, id int, name string, val float64) inte
 	return recBoundsB{g.(*geom.Bounds), id, val, name}
 }
 
+// third column layout, built with reflect.StructOf: the Go name of one field equals (apart from case) the shp tag of another
+// field - a column is matched by tag first, by field name only when there is no tag match
+func c16TypeC(kind string) reflect.Type {
+	var gt reflect.Type
+	switch kind {
+	case "Point":
+		gt = reflect.TypeOf(geom.Point{})
+	case "MultiPoint":
+		gt = reflect.TypeOf(geom.MultiPoint{})
+	case "LineString":
+		gt = reflect.TypeOf(geom.LineString{})
+	case "MultiLineString":
+		gt = reflect.TypeOf(geom.MultiLineString{})
+	case "Polygon":
+		gt = reflect.TypeOf(geom.Polygon{})
+	default:
+		gt = reflect.TypeOf(&geom.Bounds{})
+	}
+	return reflect.StructOf([]reflect.StructField{
+		{Name: "Geom", Type: gt},
+		{Name: "Region", Type: reflect.TypeOf(int(0)), Tag: `shp:"area"`},
+		{Name: "Area", Type: reflect.TypeOf(float64(0)), Tag: `shp:"area_km2"`},
+		{Name: "Name", Type: reflect.TypeOf("")},
+	})
+}
+
+// the decoding twin: the geometry is received through the interface
+func c16TypeCDec() reflect.Type {
+	return reflect.StructOf([]reflect.StructField{
+		{Name: "Geom", Type: reflect.TypeOf((*geom.Geom)(nil)).Elem()},
+		{Name: "Region", Type: reflect.TypeOf(int(0)), Tag: `shp:"area"`},
+		{Name: "Area", Type: reflect.TypeOf(float64(0)), Tag: `shp:"area_km2"`},
+		{Name: "Name", Type: reflect.TypeOf("")},
+	})
+}
+
+func c16RecordC(kind string, g geom.Geom, id int, name string, val float64) interface{} {
+	v := reflect.New(c16TypeC(kind)).Elem()
+	v.Field(0).Set(reflect.ValueOf(g))
+	v.Field(1).SetInt(int64(id))
+	v.Field(2).SetFloat(val)
+	v.Field(3).SetString(name)
+	return v.Interface()
+}
+
 func c16Archetype(kind string) interface{} {
 	switch kind {
 	case "Point":
@@ -247,6 +293,8 @@ func runC16(c map[string]interface{}) []Event {
 				var err error
 				if api == "struct" {
 					enc, err = gshp.NewEncoder(fn, c16Archetype(kind))
+				} else if api == "struct3" {
+					enc, err = gshp.NewEncoder(fn, reflect.New(c16TypeC(kind)).Elem().Interface())
 				} else if api == "struct2" {
 					enc, err = gshp.NewEncoder(fn, c16ArchetypeB(kind))
 				} else if api == "fields2" {
@@ -278,6 +326,8 @@ func runC16(c map[string]interface{}) []Event {
 				var err error
 				if api == "struct" {
 					err = enc.Encode(c16Record(kind, g, id, name, val))
+				} else if api == "struct3" {
+					err = enc.Encode(c16RecordC(kind, g, id, name, val))
 				} else if api == "struct2" {
 					err = enc.Encode(c16RecordB(kind, g, id, name, val))
 				} else if api == "fields2" {
@@ -316,7 +366,19 @@ func runC16(c map[string]interface{}) []Event {
 			e["g"] = noG
 			e["out"] = safely(func() {
 				var got float64
-				if api == "struct2" {
+				if api == "struct3" {
+					rp := reflect.New(c16TypeCDec())
+					more := dec.DecodeRow(rp.Interface())
+					e["more"] = more
+					if more {
+						rv := rp.Elem()
+						if !rv.Field(0).IsNil() {
+							e["g"] = encGeom(rv.Field(0).Interface().(geom.Geom), c16CoordEnc)
+						}
+						e["id"], e["name"] = int(rv.Field(1).Int()), nameIndex(rv.Field(3).String())
+						got = rv.Field(2).Float()
+					}
+				} else if api == "struct2" {
 					var rec recAnyB
 					more := dec.DecodeRow(&rec)
 					e["more"] = more
@@ -413,7 +475,7 @@ func randomC16(rng *rand.Rand, n int) []map[string]interface{} {
 	out := make([]map[string]interface{}, n)
 	for i := range out {
 		kind := kinds[rng.Intn(len(kinds))]
-		api := []string{"struct", "fields", "struct2", "fields2"}[rng.Intn(4)]
+		api := []string{"struct", "fields", "struct2", "fields2", "struct3"}[rng.Intn(5)]
 		ops := []interface{}{map[string]interface{}{"op": "create", "kind": kind, "api": api}}
 		nrec := 1 + rng.Intn(60)
 		for r := 0; r < nrec; r++ {
